@@ -23,6 +23,7 @@ import RoModel.Drivers.Prom
 import RoModel.Drivers.Cut
 import RoModel.Drivers.MultiB
 import RoModel.Drivers.MultiBC
+import RoModel.Drivers.Share
 namespace Ro.Driver
 
 def handlers : List (String × (Case → String)) := [
@@ -53,7 +54,12 @@ def handlers : List (String × (Case → String)) := [
   ("collect", Drivers.Cut.runCollect),
   ("teardown", Drivers.Cut.runTeardown),
   ("multib", Drivers.MultiB.run),
-  ("multibc", Drivers.MultiBC.run)
+  ("multibc", Drivers.MultiBC.run),
+  ("share", Drivers.Share.run),
+  ("conn", Drivers.Share.runConn),
+  ("sharec", Drivers.Share.runConc),
+  ("connc", Drivers.Share.runConc),
+  ("sharex", Drivers.Share.runScenario)
 ]
 
 def runCase (c : Case) : String :=
